@@ -18,8 +18,8 @@ def big_field_chain(r, coin, sizes):
 
 def explore(ck):
     r = ck.rng; quick = ck.tier == 'quick'
-    ck.rule = ('chains written XOR-ed with keys of length 1..64 (8 most often; lengths 3,5,6,7,12,13 always present; all-zero keys) and as plaintext; layouts with out-of-order blocks '
-               '(backward seeks), offsets not multiples of the key length, block starts at 32768*k +- {0,1,3}, single fields of 32768/40000/70000 bytes followed by further fields, '
+    ck.rule = ('chains written XOR-ed with keys of length 1..64 (8 most often; lengths 3,5,6,7,12,13 always present; all-zero keys, keys with one zero byte, keys whose first 8 bytes are zero and the rest not) and as plaintext; layouts with out-of-order blocks '
+               '(backward seeks), offsets not multiples of the key length, block starts at 32768*k +- {0,1,3}, single fields of 32768/40000/70000/131073 bytes followed by further fields, '
                'and a block beyond 4 GiB (sparse) with non-power-of-two key lengths; outputs of all five callbacks of the obfuscated directory = plaintext directory = model. '
                'Plus in-process: XorReader over seek_bufread::BufReader with arbitrary buffer sizes and short-read patterns vs the Coq mirror (Reader.v). '
                'Non-trivial: key present and (>= 1 backward seek or a field >= 32 KiB or an offset >= 4 GiB); distinct by (layout kind, key length).')
@@ -29,6 +29,9 @@ def explore(ck):
     for i in range(n):
         coin = gen.ALL_COINS[i % 8]; kl = keylens[i % len(keylens)]
         key = bytes(kl) if i % 9 == 4 else gen.rb(r, kl)
+        if i % 9 == 1: k_ = bytearray(key); k_[r.randrange(kl)] = 0; key = bytes(k_)                       # one zero byte inside an otherwise random key
+        if i % 9 == 6: kl = max(kl, 12); key = bytes(8) + bytes(x | 1 for x in gen.rb(r, kl - 8))             # first 8 bytes zero, the rest not
+        if i % 9 == 8: key = bytes(kl - 1) + b'\x5a'                                                          # all zero but the last byte
         kind = ['shuffled', 'bigfield', 'boundary', 'huge'][i % 4]
         if kind == 'huge' and i % 8 == 3: kl = [3, 5, 12, 13, 6, 7][(i // 8) % 6]; key = gen.rb(r, kl)
         c = Case('x%d' % i, coin); c.xor = key; c.meta.update(kind=kind, keylen=kl, zero=(key == bytes(kl)))
@@ -38,7 +41,7 @@ def explore(ck):
             for h in range(len(blocks)): c.add_record(blocks[h], h, *offs[h])
             c.meta['backward'] = sum(1 for h in range(1, len(blocks)) if offs[h][0] == offs[h - 1][0] and offs[h][1] < offs[h - 1][1])
         elif kind == 'bigfield':
-            blocks = big_field_chain(r, coin, [r.choice([32768, 40000, 70000] if not quick else [32768, 40000]), 100, r.choice([32767, 32769, 65536])]); c.simple_layout(blocks); c.meta['maxfield'] = 70000
+            blocks = big_field_chain(r, coin, [[70000, 32768, 40000, 131073][(i // 4) % 4], 100, r.choice([32767, 32769, 65536, 70000])]); c.simple_layout(blocks); c.meta['maxfield'] = 131073
         elif kind == 'boundary':
             blocks = gen.random_chain(r, coin, 4, max_tx=2); offs = {}
             for h, b in enumerate(blocks):
@@ -76,7 +79,7 @@ def explore(ck):
     lines = []
     for i in range(150 if quick else 1500):
         size = r.choice([0, 1, 5, 40, 200, 1000]); data = gen.rb(r, size)
-        key = r.choice(['-', gen.rb(r, r.choice([1, 2, 3, 5, 8, 13])).hex(), '00' * 8])
+        key = r.choice(['-', gen.rb(r, r.choice([1, 2, 3, 5, 8, 13])).hex(), '00' * 8, 'ab00cd', '00' * 8 + gen.rb(r, 3).hex(), gen.rb(r, 3).hex() + '00' + gen.rb(r, 4).hex()])
         bufsz = r.choice([1, 2, 3, 7, 16, 64, 4096]); chunks = r.choice(['-', '1', '3,1', '2,5,1', '100'])
         ops = []; 
         for _ in range(r.randrange(1, 12)):
